@@ -45,7 +45,7 @@ def space():
         Axis('streamw', ((1.0, 1.0), (0.5, 2.0), (0.0, 1.0), (1.0, 0.0))),
         Axis('aligner', ('none', 'greedy', 'dhtv', 'builtin')),
         Axis('single', (False, True)),
-        Axis('data', ('generic',) + S.DEGENERATE_KINDS),
+        Axis('data', ('generic',) + S.DEGENERATE_KINDS + ('near_unit', 'emb_offset')),
         Axis('start', ('soft', 'onehot', 'soft_singleton', 'nc0', 'nc1', 'nc2')),
         Axis('iterations', (2, 1, 5)),
         Axis('layout', A.LAYOUTS),      # memory layout of the observation (and embedding) tensors
@@ -57,6 +57,8 @@ def space():
         lead = tuple(p['lead'])
         if integ and len(lead) != 1:
             return False
+        if p['data'] == 'emb_offset' and m != 'gcacgmm':
+            return False       # only the Gaussian embedding stream is defined for embeddings far from the origin
         nd = len(lead) + 2
         wca = S.resolve_wca(m, p['wca'], p['aligner'], lead)
         if not S.wca_valid(m, wca, nd):
@@ -180,6 +182,8 @@ def build(p, seed):
         emb = A.generic_data(seed, lead + (N, E), 'emb', tag, complex_=False)
         if kind == 'zero_frame':
             emb[..., 0, :] = 0
+        if kind == 'emb_offset':
+            emb = emb + 1e7       # embeddings on a large common offset (the Gaussian stream is translation equivariant)
         if model == 'vmfcacgmm':
             nrm = np.linalg.norm(emb, axis=-1, keepdims=True)
             emb = emb / np.where(nrm == 0, 1, nrm)
@@ -243,7 +247,7 @@ def build(p, seed):
     return dict(model=model, data=data, init=init, opts=opts, K=K, N=N, lead=lead, mask=mask,
                 eps=eps_used, rng_seed=rng_seed, integ=integ, single=single, skip=skip,
                 empty_class=empty,
-                degenerate=(kind != 'generic') or K == 1 or N < K * (D + 2) or bool(skip))
+                degenerate=(kind not in S.REGULAR_KINDS_) or K == 1 or N < K * (D + 2) or bool(skip))
 
 
 def run_config(key):
